@@ -1723,6 +1723,12 @@ func (c *Ctx) regionCountFits(ws *ssa.Function) []core.Ob {
 	o := c.ordOb("region:sector-count-fits-byte", "the sector count packed into the low 8 bits of a location word is at most 255 there (the size refusal bounds the count itself)", ws)
 	t := c.TLG()
 	n := 0
+	type paramSite struct {
+		fn *ssa.Function
+		p  *ssa.Parameter
+		or *ssa.BinOp
+	}
+	var deferred []paramSite
 	for _, fn := range c.withPkgCallees(ws, 2) {
 		var sites []*ssa.BinOp
 		for _, b := range fn.Blocks {
@@ -1769,12 +1775,52 @@ func (c *Ctx) regionCountFits(ws *ssa.Function) []core.Ob {
 					av := eval(cnt)
 					all := av.all()
 					if all == nil || all.Hi == nil || all.Hi.Cmp(bi(255)) > 0 {
+						// the packing lives in a helper and the count is its parameter: the bound is
+						// established by the callers, looked at below
+						if p, isParam := stripConv(cnt).(*ssa.Parameter); isParam && fn != ws {
+							deferred = append(deferred, paramSite{fn, p, or})
+							continue
+						}
 						o.Status, o.Pos = core.Violated, c.P.Pos(or.Pos())
 						o.Got = "the count is only known to be " + av.String() + " where it is packed: a chunk needing 256 or more sectors is recorded with a truncated count"
 					}
 				}
 			}
 		})
+	}
+	for _, ps := range deferred {
+		idx := -1
+		for i, q := range ps.fn.Params {
+			if q == ps.p {
+				idx = i
+			}
+		}
+		nCalls := 0
+		for _, caller := range c.withPkgCallees(ws, 2) {
+			var calls []ssa.CallInstruction
+			for _, ci := range callsIn(caller, func(_ string, cc *ssa.CallCommon) bool { return cc.StaticCallee() == ps.fn }) {
+				calls = append(calls, ci)
+			}
+			if len(calls) == 0 {
+				continue
+			}
+			t.Probe(caller, func(in ssa.Instruction, eval func(ssa.Value) AV, _ func(string) (AV, bool)) {
+				for _, ci := range calls {
+					if in != ssa.Instruction(ci) || idx < 0 || idx >= len(ci.Common().Args) {
+						continue
+					}
+					nCalls++
+					av := eval(ci.Common().Args[idx])
+					if all := av.all(); all == nil || all.Hi == nil || all.Hi.Cmp(bi(255)) > 0 {
+						o.Status, o.Pos = core.Violated, c.P.Pos(ci.Pos())
+						o.Got = "the count handed to " + ps.fn.Name() + " (which packs it into the low byte) is only known to be " + av.String() + " at this call"
+					}
+				}
+			})
+		}
+		if nCalls == 0 {
+			o.Status, o.Got = core.Violated, "the helper "+ps.fn.Name()+" packs its parameter but no call of it was found on WriteSector's paths"
+		}
 	}
 	if n == 0 {
 		o.Status, o.Got = core.Violated, "no (offset << 8) | count packing found in WriteSector or its helpers"
